@@ -4808,18 +4808,19 @@ class FST:
             return None
 
         while True:
-            for f in self.walk('loc', self_=False):
+            for f in (walking := self.walk('loc', self_=False)):
                 fln, fcol, fend_ln, fend_col = f.bloc
 
                 if fend_ln < ln or (fend_ln == ln and fend_col <= col):
                     continue
 
-                if (fln > ln
-                    or ((same_ln := fln == ln) and fcol > col)
-                    or fend_ln < end_ln
-                    or ((same_end_ln := fend_ln == end_ln) and fend_col < end_col)
-                ):
+                if fln > ln or ((same_ln := fln == ln) and fcol > col):
                     return self
+
+                if fend_ln < end_ln or ((same_end_ln := fend_ln == end_ln) and fend_col < end_col):  # starts before but ends too early, siblings can overlap (the Constant in front of a self-documenting f-string field), the next one may contain
+                    walking.send(False)
+
+                    continue
 
                 if not allow_exact and same_ln and same_end_ln and fcol == col and fend_col == end_col:
                     return self
